@@ -14,7 +14,7 @@ ASSUMPTIONS = ["'promptly' = the whole batch finishes under the harness watchdog
                "stack depth is a runtime effect the model cannot exhibit: it is watched through the process exit status (20000- and 100000-group patterns are run, expected verdicts checked; KF-C17-globdepth: >= ~75000 '*' abort inside the glob crate)"]
 OTHERS = ["c01", "c02", "c03", "c04", "c05", "c06", "c07", "c08", "c09", "c10", "c11", "c12", "c13", "c14", "c15", "c16", "c18", "c19", "c20"]
 TEXT_OPS = {"pat.new", "pat.match", "pat.best", "dewey.new", "dewey.match", "pkgname", "sum.parse", "path.new", "dep.new", "dg.name", "md.from"}
-BYTE_OPS = {"stream", "di.parse", "di.roundtrip", "di.classify", "pl.parse", "pl.entry", "pl.query"}
+BYTE_OPS = {"stream", "stream.cont", "di.parse", "di.roundtrip", "di.classify", "pl.parse", "pl.entry", "pl.query"}
 FIRST_ARG_TEXT = {"scan.read"}
 TWO_BYTE_ARGS = {"di.find"}
 
@@ -71,7 +71,8 @@ def generate(rng, tier):
         sub = random.Random(rng.randrange(1 << 30))
         cs = mod.generate(sub, "quick")
         sub.shuffle(cs)
-        for c in cs[:per]:
+        # every write-after-a-failed-write history is kept: the state a failed write leaves behind must not make a later one panic
+        for c in cs[:per] + [c for c in cs[per:] if c.op == "stream.cont"]:
             base.append(Case(c.op, c.args, mop=c.mop, margs=c.margs, meta={"nt": False, "src": name}))
     cases = list(base)
     pool = [c for c in base if c.op in TEXT_OPS or c.op in BYTE_OPS or c.op in FIRST_ARG_TEXT or c.op in TWO_BYTE_ARGS]
